@@ -59,6 +59,21 @@ func (e *EqualsExpr) Eval(input []reflect.Value, isVariadic bool) (bool, error) 
 	return false, nil
 }
 
+// ExpandVariadic 展开可变参数: 最后一个参数是可变参数数组, 展开为独立的元素; 前面的固定参数保持不变
+func ExpandVariadic(args []reflect.Value) []reflect.Value {
+	if len(args) == 0 {
+		return args
+	}
+	last := len(args) - 1
+	expandArgs := make([]reflect.Value, 0, len(args))
+	expandArgs = append(expandArgs, args[:last]...)
+	rv := reflect.ValueOf(args[last].Interface())
+	for i := 0; i < rv.Len(); i++ {
+		expandArgs = append(expandArgs, rv.Index(i))
+	}
+	return expandArgs
+}
+
 // InExpr 包含表达式执行
 type InExpr struct {
 	args        []interface{}
@@ -97,15 +112,8 @@ func (in *InExpr) Resolve(types []reflect.Type, isVariadic bool) error {
 // Eval InExpr 表达式执行
 func (in *InExpr) Eval(input []reflect.Value, isVariadic bool) (bool, error) {
 	if isVariadic {
-		// 可变参数需要展开参数数组
-		expandArgs := make([]reflect.Value, 0)
-		for _, v := range input {
-			rv := reflect.ValueOf(v.Interface())
-			for i := 0; i < rv.Len(); i++ {
-				expandArgs = append(expandArgs, rv.Index(i))
-			}
-		}
-		input = expandArgs
+		// 可变参数需要展开参数数组(只展开最后一个参数, 前面的固定参数保持不变)
+		input = ExpandVariadic(input)
 	}
 outer:
 	for _, one := range in.expressions {
